@@ -5,6 +5,7 @@ import Stackage.Driver.Marshal
 import Stackage.Driver.Traverse
 import Stackage.Driver.Alias
 import Stackage.Driver.Opts
+import Stackage.Driver.Sweep
 
 /-! Correspondence driver: case lines on stdin, `<id> M <model>` and `<id> S <spec>` lines on stdout. -/
 
@@ -20,6 +21,7 @@ def dispatch (stream payload : String) : String × String × String :=
   else if stream == "paths" then runPaths payload
   else if stream == "alias" then runAlias payload
   else if stream == "opts" then runOpts payload
+  else if ["frozen", "inert", "queries"].contains stream then runSweep payload
   else ("NOSTREAM", "NOSTREAM", "")
 
 partial def loop (h : IO.FS.Stream) (out : IO.FS.Stream) : IO Unit := do
